@@ -13,7 +13,7 @@ PROP = 'C15'
 MANIFEST = dict(
     technique='TLA+ models (VtfLayout, VtfLayoutPix) checked by TLC; every model transition replayed on real srctools.vtf objects; saved bytes parsed by an independent header/resource-table reader; all records validated by TLC (VtfLayoutTrace)',
     category='model_checking',
-    text='TLC exhausts the VTF file design: sizes 1..8 (thorough 1..32, non-square and 1xN included) x 1-2 (3) frames x depth 1/2/(4)/cubemap with and without sphere map x versions 7.2-7.5 x thumbnail or none, resource sets of up to two inline/data resources plus sheet data v0/v1, with the invariants: frame table size = frames * slices * declared mipmaps, declared mipmaps = levels, closed-form offsets equal the running sums of a reader, images partition the image block up to the file length, blocks do not overlap, reading gives back the object (with the 7.3 resource gate); and, per pixel over channel sweeps, for all 20 writable uncompressed formats: decode(encode(p)) equals the documented quantisation, quantisation is idempotent, 8-bit-per-channel formats are exact. Every Create/AddResource/AddSheet/GetPixel/SetPixel/Save transition is executed on real VTF objects; TLC checks each logged case against the same operators: header fields, mipmap count, resource table entries and offsets, header size and file length found in the saved bytes by an independent parser; keys, dimensions and file offsets of every frame of the object read back; meta data, resources (normalised flag), sheet sequences by version; for images up to 4x4 (8x8 thorough) the stored bytes equal Encode[fmt] and the pixels read equal Quant[fmt] of the given pixels or of Average2x2 of the level above for generated mipmaps; re-saving the read file is byte-identical; pixel access at -1, 0, n-1, n, n+1 raises exactly when out of bounds. Histories of a texture that was read (all frames lazy): every sequence of up to two (random: four) of load some/all frames, look at a pixel, write a pixel, compute_mipmaps(), clear_mipmaps(after) followed by save and read, on harness-written files whose mipmaps are unrelated random images, in all writable formats: the second file has the same structure and every level holds exactly the stored pixels (with the written ones), erased levels the average of the level above as it then is. Files laid out by the harness for all 28 formats (DXT/ATI included) are read and judged the same way; seeded random textures up to 128x128 with random resources and sheets extend the bounds.',
+    text='TLC exhausts the VTF file design: sizes 1..8 (thorough 1..32, non-square and 1xN included) x 1-2 (3) frames x depth 1/2/(4)/cubemap with and without sphere map x versions 7.2-7.5 x thumbnail or none, resource sets of up to two inline/data resources plus sheet data v0/v1, with the invariants: frame table size = frames * slices * declared mipmaps, declared mipmaps = levels, closed-form offsets equal the running sums of a reader, images partition the image block up to the file length, blocks do not overlap, reading gives back the object (with the 7.3 resource gate); and, per pixel over channel sweeps, for all 20 writable uncompressed formats: decode(encode(p)) equals the documented quantisation, quantisation is idempotent, 8-bit-per-channel formats are exact. Every Create/AddResource/AddSheet/GetPixel/SetPixel/Save transition is executed on real VTF objects; TLC checks each logged case against the same operators: header fields, mipmap count, resource table entries and offsets, header size and file length found in the saved bytes by an independent parser; keys, dimensions and file offsets of every frame of the object read back; meta data, resources (normalised flag), sheet sequences by version; for images up to 4x4 (8x8 thorough) the stored bytes equal Encode[fmt] and the pixels read equal Quant[fmt] of the given pixels or of Average2x2 of the level above for generated mipmaps; re-saving the read file is byte-identical; pixel access at -1, 0, n-1, n, n+1 raises exactly when out of bounds. Histories of a texture that was read (all frames lazy): every sequence of up to two (random: four) of load some/all frames, look at a pixel, write a pixel, compute_mipmaps(), clear_mipmaps(after) followed by save and read, on harness-written files whose mipmaps are unrelated random images, in all writable formats: the second file has the same structure and every level holds exactly the stored pixels (with the written ones), erased levels the average of the level above as it then is. The low-res image is part of the model: written and read back it is the stored image while it is as read, the blank opaque image if it never had pixels and no level is twice its size (textures below 32x32 or non-square with the 16x16 default; 4x4 and 2x1 thumbnails in harness files), else the average of frame 0 (depth 0 or FRONT face) of that level; judged by bytes and decoded pixels for 14 thumbnail formats, on new textures and on read/load()/clear/compute histories (16x16, 8x4, 64x32, 32x32, 64x64 with the 16x16 thumbnail included). Files laid out by the harness for all 28 formats (DXT/ATI included) are read and judged the same way; seeded random textures up to 128x128 with random resources and sheets extend the bounds.',
     design_ref='4 (C15)',
     note='DXT/ATI encoding exists only in the Cython module: compressed formats are covered for layout/metadata through harness-written files. Float meta data is compared as float32 bit patterns. The texture with a corrected mipmap_count (variant adj) stands for a consistent object such as one read from a file. Pure-Python codecs only.',
 )
@@ -93,7 +93,7 @@ def run(tier: str, seed: int) -> int:
                 for k in counts:
                     counts[k] += want[k]
                 mf.write(open(out, encoding='utf-8').read())
-            need = {'create', 'resource', 'sheet', 'get', 'set', 'save', 'read', 'load', 'look', 'poke', 'compute', 'clear', 'resave', 'reread'}
+            need = {'create', 'resource', 'sheet', 'get', 'set', 'save', 'read', 'load', 'loadall', 'look', 'poke', 'compute', 'clear', 'resave', 'reread'}
             if not need <= set(actions):
                 raise core.MachineryError(f'vacuous model: actions never taken: {need - set(actions)}')
             # 3. harness-written files of every format; random textures outside the bounds
